@@ -49,7 +49,8 @@ func modelComments(src string) (*fileComments, error) {
 		for _, c := range realComments(cg) {
 			fc.All = append(fc.All, c.Text)
 		}
-		if cg.Pos() < f.Name.End() {
+		if cg.Pos() < f.Name.End() || line(cg.Pos()) == line(f.Name.Pos()) {
+			// header and package doc, and a comment on the package clause's own line (an import comment)
 			for _, c := range realComments(cg) {
 				fc.Header = append(fc.Header, c.Text)
 			}
@@ -170,6 +171,16 @@ func judgeComments(src, out string) (class, detail string, untouchedWithComments
 		if (i == 0 || untouched[i-1]) && len(da[i].Detached) > 0 {
 			got := append(append([]string{}, db[i].Detached...), db[i].Doc...)
 			want := append(append([]string{}, da[i].Detached...), da[i].Doc...)
+			importComments := false
+			for _, d := range a.Decls {
+				if d.IsImport && len(d.Doc)+len(d.Interior)+len(d.Trailing) > 0 {
+					importComments = true
+				}
+			}
+			if i == 0 && importComments && strings.HasSuffix(joinC(got), joinC(want)) {
+				// merging / sorting import declarations moves their comments behind the import block
+				continue
+			}
 			if joinC(got) != joinC(want) {
 				return "detached-comment-between-untouched-declarations", fmt.Sprintf("before declaration %d: %q => %q", i, joinC(want), joinC(got)), untouchedWithComments, ""
 			}
@@ -197,6 +208,10 @@ var c17Patches = []string{
 	"@@\nvar f identifier\n@@\n-func f(tgtMarker int) {\n-  ...\n-}\n+var f = 1\n",
 	"@@\nvar n identifier\n@@\n-var n = tgtFn\n+func n() {\n+  tgtFn()\n+}\n",
 	"@@\nvar N identifier\n@@\n-type N tgtAlias\n+type N = tgtAlias\n",
+	// import-removing changes (the first, a middle or the only spec of a block; single-line imports)
+	"@@\nvar x expression\n@@\n-import \"fmt\"\n\n-fmt.Println(x)\n+println(x)\n",
+	"@@\nvar x expression\n@@\n-import \"os\"\n\n-os.Exit(x)\n+exit(x)\n",
+	"@@\nvar x expression\n@@\n-import \"os\"\n+import \"example.com/sys\"\n\n-os.Exit(x)\n+sys.Exit(x)\n",
 }
 
 // commentDenseFile generates a file with comments of every kind at every attachment point.
@@ -224,9 +239,26 @@ func commentDenseFile(g *gen.G) string {
 	if r.Intn(2) == 0 {
 		sb.WriteString(cm("line") + "\n")
 	}
-	sb.WriteString("package p\n\n")
-	if r.Intn(3) == 0 {
+	// the package clause may carry a comment of its own (an import comment)
+	switch r.Intn(4) {
+	case 0:
+		sb.WriteString("package p " + cm("line") + "\n\n")
+	case 1:
+		sb.WriteString("package p // import \"example.com/p\"\n\n")
+	default:
+		sb.WriteString("package p\n\n")
+	}
+	hasImports := false
+	switch r.Intn(6) {
+	case 0, 1:
 		sb.WriteString("import (\n\t\"fmt\" " + cm("line") + "\n\t" + cm("line") + "\n\t\"os\"\n)\n\n")
+		hasImports = true
+	case 2:
+		sb.WriteString("import (\n\t\"fmt\"\n\t\"os\"\n\t\"strings\"\n)\n\n")
+		hasImports = true
+	case 3:
+		sb.WriteString("import \"os\"\nimport \"fmt\" " + cm("line") + "\n\n")
+		hasImports = true
 	}
 	nd := 2 + r.Intn(7)
 	for i := 0; i < nd; i++ {
@@ -285,7 +317,11 @@ func commentDenseFile(g *gen.G) string {
 			case 5:
 				fmt.Fprintf(&sb, "\tswitch k {\n\t%s\n\tcase 1: %s\n\t\tfoo(k, 2)\n\t}\n", cm("line"), cm("line"))
 			default:
-				fmt.Fprintf(&sb, "\tother(%d)%s\n", j, tail)
+				if hasImports && r.Intn(2) == 0 {
+					fmt.Fprintf(&sb, "\t%s%s\n", []string{"fmt.Println(1)", "os.Exit(2)", "fmt.Println(os.Args)"}[r.Intn(3)], tail)
+				} else {
+					fmt.Fprintf(&sb, "\tother(%d)%s\n", j, tail)
+				}
 			}
 		}
 		fmt.Fprintf(&sb, "\treturn 0 %s\n}%s\n\n", cm("block"), map[bool]string{true: " " + cm("line"), false: ""}[r.Intn(3) == 0])
